@@ -115,12 +115,15 @@ fn emit_case(st: &mut Stream, n: usize, es: Vec<E>, family: &str, via_files: boo
     let es2 = es.clone();
     let tmp2 = tmp.to_path_buf();
     let out = catch(move || -> Result<(Vec<Vec<usize>>, Vec<usize>), String> {
-        let g = if via_files { build_files(n, &es2, &tmp2, id)? } else { build_direct(n, &es2) };
+        let g = if via_files { build_files(n, &es2, &tmp2, id).map_err(|e| format!("LOADERR {}", e))? } else { build_direct(n, &es2) };
         let comps = all_strongly_connected_componenets(&g).map_err(|e| format!("{:?}", e))?;
         let largest = largest_strongly_connected_component(&g).map_err(|e| format!("{:?}", e))?;
         Ok((comps.iter().map(|c| c.iter().map(|v| v.0).collect()).collect(), largest.iter().map(|v| v.0).collect()))
     });
-    let mut terms = vec![format!("line_model {} {}", id, g_coq)];
+    // via Graph::from_files a non-digraph (dangling endpoint) must be refused by the loader:
+    // the *_files runner functions decide that from wfb
+    let sfx = if via_files { "_files" } else { "" };
+    let mut terms = vec![format!("line_model{} {} {}", sfx, id, g_coq)];
     let line;
     match &out {
         Ok(Ok((comps, largest))) => {
@@ -128,7 +131,7 @@ fn emit_case(st: &mut Stream, n: usize, es: Vec<E>, family: &str, via_files: boo
             l.sort();
             line = format!("I {} Ok comps={} largest={}", id, show_list(&canon(comps), show_comp), show_comp(&l));
             // the checker runs on the RAW implementation output
-            terms.push(format!("line_spec {} {} {} {}", id, g_coq, coq_list(comps, coq_comp), coq_comp(largest)));
+            terms.push(format!("line_spec{} {} {} {} {}", sfx, id, g_coq, coq_list(comps, coq_comp), coq_comp(largest)));
             let ncomp = comps.len();
             let big = comps.iter().map(|c| c.len()).max().unwrap_or(0);
             st.count(&format!("components:{}", bucket(ncomp)));
@@ -137,6 +140,11 @@ fn emit_case(st: &mut Stream, n: usize, es: Vec<E>, family: &str, via_files: boo
                 st.count("nontrivial");
                 st.mark_nontrivial(&format!("{} {:?}", n, es));
             }
+        }
+        Ok(Err(e)) if e.starts_with("LOADERR") => {
+            line = format!("I {} LoadErr", id);
+            terms.push(format!("line_load_failed {} {}", id, g_coq));
+            st.count("load_refused");
         }
         Ok(Err(e)) => {
             line = format!("I {} Err {}", id, e.replace('\n', " "));
@@ -434,7 +442,11 @@ fn main() {
     // outside the property, compared against the model only
     add_case(&mut st, 3, vec![(0, 1), (1, 0), (1, 7)], "dangling_endpoint", false, &tmp);
     add_case(&mut st, 3, vec![(0, 1), (5, 0), (1, 5), (2, 2)], "dangling_endpoint", false, &tmp);
-    add_case(&mut st, 2, vec![(0, 4), (4, 0), (0, 1)], "dangling_endpoint", true, &tmp);
+    add_case(&mut st, 2, vec![(0, 4), (4, 0), (0, 1)], "dangling_endpoint", false, &tmp);
+    // the same through the loader: refused (LoadErr), for a missing source and a missing target
+    add_case(&mut st, 2, vec![(0, 4), (4, 0), (0, 1)], "dangling_endpoint_from_files", true, &tmp);
+    add_case(&mut st, 3, vec![(0, 1), (1, 0), (1, 7)], "dangling_endpoint_from_files", true, &tmp);
+    add_case(&mut st, 3, vec![(0, 1), (5, 0), (2, 2)], "dangling_endpoint_from_files", true, &tmp);
     // ---- random ----
     let mut rng = Rng::new(a.seed);
     // --n = number of random cases (the deterministic families above are always complete)
